@@ -1,4 +1,142 @@
-(** Wire entry points of property C04 (stub: replaced when the model is built). *)
-From Coq Require Import ZArith List.
-From PLV Require Import Base.Wire.
-Definition entry (sub : Z) (inp : list Z) : list Z := bad_input.
+(** Wire entry points of property C04.
+
+    sub 0: one encoder run
+      [mode (0 plain | 1 partial, keep-chars)] [out (0 str | 1 chunk list)]
+      [non_ascii_only] [protection] [policy] [rules] [input string]
+      ->  O "<code points>"  |  C ["..",..]  |  E <exception class>  |  FUEL
+    sub 1: a history of calls of the module-level helper
+      [list of (non_ascii_only, protection name, policy name, warning flag, string)]
+      ->  the outcomes, space separated *)
+From Coq Require Import NArith ZArith List Bool String.
+From PLV Require Import Base.PyStr Base.Wire Enc.Encoder Enc.Builtin Enc.Partial Enc.Family.
+Import ListNotations.
+Local Open Scope string_scope.
+Local Open Scope list_scope.
+
+Definition bind {A B} (f : rd A) (g : A -> rd B) : rd B :=
+  fun l => match f l with Some (a, r) => g a r | None => None end.
+Definition ret {A} (a : A) : rd A := fun l => Some (a, l).
+Definition fail {A} : rd A := fun _ => None.
+Notation "'let*' x ':=' f 'in' g" := (bind f (fun x => g)) (at level 200, x name, f at level 100, g at level 200).
+
+Definition rd_sprot : rd sprot :=
+  let* k := rd_nat in
+  match k with
+  | 0 => ret SPNone | 1 => ret SPBraces | 2 => ret SPBracesAll | 3 => ret SPBracesAlmostAll
+  | 4 => ret SPBracesAfterMacro
+  | 5 => let* pre := rd_str in let* post := rd_str in ret (SPWrap pre post)
+  | _ => fail
+  end.
+
+Definition rd_spolicy : rd spolicy :=
+  let* k := rd_nat in
+  match k with
+  | 0 => ret SUKeep | 1 => ret SUReplace | 2 => ret SUIgnore | 3 => ret SUFail | 4 => ret SUUnihex
+  | 5 => let* pre := rd_str in let* post := rd_str in ret (SUWrap pre post)
+  | _ => fail
+  end.
+
+Definition rd_rx : rd rx :=
+  let* k := rd_nat in
+  match k with
+  | 0 => let* l := rd_str in ret (RxLit l)
+  | 1 => let* lo := rd_N in let* hi := rd_N in let* n := rd_nat in ret (RxClassMin lo hi n)
+  | 2 => let* c := rd_N in let* n := rd_nat in ret (RxRep c n)
+  | 3 => let* pre := rd_str in let* lo := rd_N in let* hi := rd_N in let* suf := rd_str in
+         ret (RxGroup pre lo hi suf)
+  | _ => fail
+  end.
+
+Definition rd_tpiece : rd tpiece :=
+  let* k := rd_nat in
+  match k with
+  | 0 => let* l := rd_str in ret (TLit l)
+  | 1 => ret TGroup0
+  | 2 => ret TGroup1
+  | _ => fail
+  end.
+
+Definition rd_srrepl : rd srrepl :=
+  let* k := rd_nat in
+  match k with
+  | 0 => let* t := rd_list rd_tpiece in ret (SRTempl t)
+  | 1 => let* pre := rd_str in let* post := rd_str in ret (SRWrap pre post)
+  | _ => fail
+  end.
+
+Definition rd_scallable : rd scallable :=
+  let* k := rd_nat in
+  match k with
+  | 0 => let* l := rd_str in let* r := rd_str in ret (SCLit l r)
+  | 1 => ret SCDoc
+  | 2 => ret SCQuote
+  | 3 => let* cs := rd_str in let* n := rd_nat in let* r := rd_str in ret (SCSet cs n r)
+  | _ => fail
+  end.
+
+Definition rd_pair {A B} (f : rd A) (g : rd B) : rd (A * B) :=
+  let* a := f in let* b := g in ret (a, b).
+
+Definition rd_sbody : rd sbody :=
+  let* k := rd_nat in
+  match k with
+  | 0 => let* d := rd_nat in
+         match d with
+         | 0 => ret (SBDict SDDefaults)
+         | 1 => ret (SBDict SDXml)
+         | 2 => let* t := rd_list (rd_pair rd_N rd_str) in ret (SBDict (SDCustom t))
+         | _ => fail
+         end
+  | 1 => let* l := rd_list (rd_pair rd_rx rd_srrepl) in ret (SBRegex l)
+  | 2 => let* c := rd_scallable in ret (SBCallable c)
+  | _ => fail
+  end.
+
+Definition rd_srule : rd srule :=
+  let* p := rd_opt rd_sprot in let* b := rd_sbody in ret {| sr_body := b; sr_prot := p |}.
+
+Definition show_exn (e : exn) : str :=
+  match e with
+  | ValueError => lit "ValueError"
+  | BadOption => lit "ValueError"
+  | ReError => lit "error"
+  | TokenParseError => lit "LatexWalkerTokenParseError"
+  | EndOfStream => lit "LatexWalkerEndOfStream"
+  end.
+
+Definition show_res (chunks : bool) (r : res (list str)) : str :=
+  match r with
+  | Ok l => if chunks then lit "C " ++ show_list show_str l else lit "O " ++ show_str (flatten l)
+  | Exn e => lit "E " ++ show_exn e
+  | OutOfFuel => lit "FUEL"
+  end.
+
+Definition rd_case : rd str :=
+  let* mode := rd_nat in
+  let* keep := (match mode with 0 => ret None | _ => let* k := rd_str in ret (Some k) end) in
+  let* chunks := rd_bool in
+  let* nao := rd_bool in
+  let* gp := rd_sprot in
+  let* pol := rd_spolicy in
+  let* rs := rd_list rd_srule in
+  let* s := rd_str in
+  let cfg := den_config {| s_rules := rs; s_gprot := gp; s_policy := pol; s_nao := nao |} in
+  ret (show_res chunks (match keep with
+                        | None => encode cfg s
+                        | Some k => partial_encode k cfg s
+                        end)).
+
+Definition rd_call : rd (hkey * str) :=
+  let* nao := rd_bool in let* pr := rd_str in let* pol := rd_str in let* w := rd_bool in
+  let* s := rd_str in
+  ret ({| k_nao := nao; k_prot := pr; k_policy := pol; k_warn := w |}, s).
+
+Definition entry (sub : Z) (inp : list Z) : list Z :=
+  match sub with
+  | 0%Z => match rd_case inp with Some (o, _) => to_wire o | None => bad_input end
+  | 1%Z => match rd_list rd_call inp with
+           | Some (h, _) => to_wire (join [32%N] (map (show_res false) (snd (helper_run [] h))))
+           | None => bad_input
+           end
+  | _ => bad_input
+  end.
